@@ -1,5 +1,5 @@
 (** C04 — Every recorded position designates the token it documents. *)
-From GoSh Require Import Base.Bytes Lex.Cursor.
+From GoSh Require Import Base.Bytes Base.Utf8 Lex.Cursor Ast.Ends.
 
 (** The line/column bookkeeping of read(): after consuming any rune sequence the cursor is the
     character position that follows it (lines and columns count characters, not bytes; a newline
@@ -22,6 +22,48 @@ Theorem C04_columns_count_characters :
 Proof. exact pos_of_line. Qed.
 Print Assumptions C04_columns_count_characters.
 
+(** The derived End() methods of the word parts (Lit, Quote, ParamExp, CmdSubst, ArithExp and Word of
+    ast/ast.go, transcribed in Ast/Ends.v).  [layout fuel s p = Some e] says that the positions stored
+    in the part p are those of a piece of text written contiguously from s on ($name, ${name},
+    ${#name}, ${name op word}, the three quotings, literals with any characters and newlines, nested
+    to any depth; no line continuation inside) and that e is the position following it.  For every
+    such part End() is exactly that position; for a word, End() is where its last part ends. *)
+Theorem C04_end_of_a_contiguous_part :
+  forall fuel p s e, (1 <= fst s)%nat -> layout fuel s p = Some e -> end_part p = e /\ (1 <= fst e)%nat.
+Proof. exact end_of_placed. Qed.
+Print Assumptions C04_end_of_a_contiguous_part.
+
+Theorem C04_end_of_a_contiguous_word :
+  forall fuel l s e, (1 <= fst s)%nat -> l <> [] -> layout_list fuel s l = Some e -> word_end l = e.
+Proof. exact word_end_of_placed. Qed.
+Print Assumptions C04_end_of_a_contiguous_word.
+
+(** Pos() of such a part is the place where its text begins, and Pos() <= End(). *)
+Theorem C04_pos_of_a_contiguous_part :
+  forall fuel p s e, (1 <= fst s)%nat -> layout fuel s p = Some e -> pos_part p = s.
+Proof. exact pos_of_placed. Qed.
+Print Assumptions C04_pos_of_a_contiguous_part.
+
+Theorem C04_pos_before_end :
+  forall fuel p s e, layout fuel s p = Some e -> ple s e.
+Proof. exact placed_pos_le_end. Qed.
+Print Assumptions C04_pos_before_end.
+
+(** A literal's End() counts characters: for every text (any Unicode scalar values, newlines
+    included), a literal that starts where the reading cursor stood ends where the cursor stands
+    after reading the text (the lexer and Lit.End agree on lines and columns). *)
+Theorem C04_literal_ends_where_the_cursor_stands :
+  forall c rs, forallb scalar rs = true ->
+    let c' := fold_left rd rs c in lit_end (line c, col c) (encode_all rs) = (line c', col c').
+Proof. exact lit_end_is_cursor. Qed.
+Print Assumptions C04_literal_ends_where_the_cursor_stands.
+
+(** UTF-8: decoding an encoded character gives it back with its encoded length, whatever follows. *)
+Theorem C04_decode_after_encode :
+  forall r t, scalar r = true -> decode_rune (encode_rune r ++ t) = (r, rune_len r).
+Proof. exact decode_encode. Qed.
+Print Assumptions C04_decode_after_encode.
+
 (** Not proved: that each of the ~40 mark() call sites uses the offset of the token it documents,
-    and the derived Pos()/End() methods of ast.go.  Decided on every run by the intrinsic checker on
+    and the derived Pos()/End() methods of the command nodes of ast.go (those of the word parts are above).  Decided on every run by the intrinsic checker on
     the implementation's (source, AST) pairs.  Known finding F28 (here-document extent) is listed. *)
